@@ -204,11 +204,29 @@ def main(rep):
         dc = gen_decision_cases(rep.tier, rep.seed)
         impl2, model2, problems2 = vlib.correspond(exe_impl, exe_model, "world", [(c[0], c[1]) for c in dc], sandbox=True)
         problems += problems2
+        # "relative to the common watch parent": the offset at which relative rules are looked up is the length of the
+        # deepest directory containing both roots - also when one root's name continues a component of the other
+        # (/W/nazar/src beside /W/nazar2), in both orders
+        from check_C18 import deepest_common
+        cp_paths = ["/W/nazar/src", "/W/nazar2", "/W/nazar", "/W/naz", "/W/nazar/srcs", "/W", "/", "/Wx/nazar", "/W/nazar2/src", "/a/b/c", "/a/b2", "/a/bc/d"]
+        cpc = [("cp%d" % i, "cpp %s %s" % (vlib.hexs(a), vlib.hexs(b)), (a, b)) for i, (a, b) in enumerate((a, b) for a in cp_paths for b in cp_paths)]
+        cimpl, cmodel, cproblems = vlib.correspond(exe_impl, exe_model, "pure", [(c, t) for c, t, _ in cpc])
+        problems += cproblems
+        for cid, script, (a, b) in cpc:
+            got = (cimpl.get(cid) or [""])[0]
+            want = "cpp %d" % deepest_common(a, b)
+            if got != want and not found:
+                rep.violation("common-parent", {"case": cid, "script": [script], "driver": "pure", "implementation": cimpl.get(cid),
+                                                "what": "watch roots %s and %s: relative rules are looked up at offset %s, the deepest directory containing both gives %s" % (a, b, got[4:], want[4:])})
+                found = True
+            elif exe_model and cimpl.get(cid) != cmodel.get(cid):
+                rep.defer_divergence({"case": cid, "script": [script], "driver": "pure", "implementation": cimpl.get(cid), "model": cmodel.get(cid), "what": "implementation and model differ on the common parent"})
         kinds = {}
         for c in sc:
             kinds[c[4]] = kinds.get(c[4], 0) + 1
         kinds["decision"] = len(dc)
-        rep.cov["evaluations"] = len(sc) + len(dc)
+        kinds["common_parent_pairs"] = len(cpc)
+        rep.cov["evaluations"] = len(sc) + len(dc) + len(cpc)
         rep.cov["input_distribution"] = kinds
         rep.cov["rule"] = ("sieve(): paths of depth <= %d over components {a, b, .c}, common-parent offsets {1,3,5,len+1}, every single rule "
                            "(absolute/relative prefixes, '/', rules ending inside or beyond a component, rules naming a different directory of equal length and equal 64-bit hash) in every set, sampled pairs, random long paths; "
